@@ -39,8 +39,7 @@ TraceReset ==
   /\ LET e == Trace[l] IN
      /\ chain' = e.chain /\ n' = e.N
      /\ static' = [c \in {e.static[i].c : i \in Idx(e.static)} |->
-                     (CHOOSE i \in Idx(e.static) : e.static[i].c = c).a]
-                  \* the record of that client ...
+                     e.static[CHOOSE i \in Idx(e.static) : e.static[i].c = c].a]
      /\ bound' = [c \in Clients |-> 0]
 
 Pos(p) == IF \E i \in Idx(chain) : chain[i] = p THEN CHOOSE i \in Idx(chain) : chain[i] = p ELSE 0
